@@ -388,26 +388,59 @@ def le_bytes(value):
 
 
 def extract_nondet(trace):
-    out = b""
+    """Values returned by kani::any_raw_internal / any_raw_array, in call order, as little-endian bytes.
+    For arrays CBMC may print the whole array (value.elements) and/or one step per element (lhs ends in [i])."""
+    out = []          # list of bytes objects, in order
     vals = []
+    pending = None    # [base_lhs, whole_bytes, {index: bytes}, elem_width]
+
+    def flush():
+        nonlocal pending
+        if pending is not None:
+            base, whole, elems, fn = pending
+            if elems:
+                w = len(next(iter(elems.values())))
+                n = max(len(whole) // w if w else 0, max(elems) + 1)
+                b = b"".join(elems.get(i, whole[i * w:(i + 1) * w]) for i in range(n))
+            else:
+                b = whole
+            out.append(b)
+            vals.append({"fn": fn, "bytes": b.hex()})
+            pending = None
+
     for st in trace:
         if st.get("stepType") != "assignment":
             continue
         lhs = st.get("lhs", "")
         fn = (st.get("sourceLocation") or {}).get("function", "")
-        if lhs.startswith("goto_symex$$return_value") and (fn.startswith("kani::any_raw_internal")
-                                                          or fn.startswith("kani::any_raw_array")):
+        if not lhs.startswith("goto_symex$$return_value"):
+            continue
+        if fn.startswith("kani::any_raw_internal"):
+            flush()
             b = le_bytes(st.get("value", {}))
-            out += b
+            out.append(b)
             vals.append({"fn": fn, "bytes": b.hex()})
-    return out, vals
+        elif fn.startswith("kani::any_raw_array"):
+            m = re.match(r"^(.*)\[(\d+)\]$", lhs)
+            v = st.get("value", {})
+            if m:
+                base, idx = m.group(1), int(m.group(2))
+                if pending is None or pending[0] != base or idx in pending[2]:
+                    flush()       # (a second array returned by the same any_raw_array instance starts over at an index seen before)
+                    pending = [base, b"", {}, fn]
+                pending[2][idx] = le_bytes(v)
+            else:
+                flush()
+                pending = [lhs, le_bytes(v), {}, fn]
+    flush()
+    return b"".join(out), vals
 
 
 def run_obligation(ob, table, outdir):
     """Returns a result dict for one obligation."""
     t0 = time.time()
     r = {"name": ob["name"], "verdict": "inconclusive", "reason": "", "wall_s": 0.0}
-    h = table.get(ob["name"])
+    h = table.get(ob.get("harness", ob["name"]))
     if h is None:
         r["reason"] = "harness not found in Kani metadata (did it compile?)"
         return r
@@ -502,7 +535,10 @@ def get_trace(r, ob, outdir):
     prop = r["failed"][0]["property"]
     logp = os.path.join(outdir, ob["name"] + ".trace.json")
     with open(logp, "wb") as lf:
-        rc, _ = run(["cbmc"] + r["_args"] + [r["_binary"], "--json-ui", "--trace", "--property", prop],
+        # no --slice-formula here: the slicer drops nondet assignments that do not influence the failing property, and
+        # the replay needs every kani::any() value, in call order
+        targs = [a for a in r["_args"] if a != "--slice-formula"]
+        rc, _ = run(["cbmc"] + targs + [r["_binary"], "--json-ui", "--trace", "--property", prop],
                     timeout=ob["timeout"] * 2, mem_gb=ob.get("mem_gb", 8) * 2, stdout=lf)
     parsed = parse_cbmc_json(open(logp, "rb").read().decode("utf-8", "replace"))
     if not parsed:
@@ -633,7 +669,7 @@ def main():
         inject(work, files, kf_active)
         seed_target(kt)
         log("[kdrive] %s/%s: %d obligations, harness files: %s" % (prop, tier, len(obs), ", ".join(files)))
-        table, cg_s, cg_out = codegen(work, kt, [o["name"] for o in obs], os.path.join(scratch, "codegen.log"))
+        table, cg_s, cg_out = codegen(work, kt, sorted({o.get("harness", o["name"]) for o in obs}), os.path.join(scratch, "codegen.log"))
         if table is None:
             log("[kdrive] harness compilation failed (inconclusive):")
             log("\n".join(l for l in cg_out.splitlines() if "error" in l.lower())[:3000])
